@@ -2,7 +2,7 @@
    Model: theories/Filters.v (hand model of PyKdebugParser.kevents / os_log_events / _is_eventid_allowed),
    tied to the code by the correspondence of tools/props/C12.py (real v2/v3 dumps through the real API). *)
 From Coq Require Import NArith List Bool.
-From Kd Require Import theories.Base theories.Printers theories.Filters.
+From Kd Require Import theories.Base theories.Printers theories.Filters theories.CliInt.
 Import ListNotations.
 Open Scope N_scope.
 
@@ -36,6 +36,22 @@ Proof. exact os_log_events_no_events. Qed.
 (* 3. the log listing honours the thread and process filters in the same exact-subsequence sense *)
 Theorem c12_logs : forall cfg items, os_log_events cfg items = map Lg (filter (lsat cfg) (logs items)).
 Proof. exact os_log_events_spec. Qed.
+
+(* 4. the configurations the command line can name: its class / subclass filter options read their text as Python's
+      int(text, 0) (model: CliInt.based_int) - every non-empty digit string after a base prefix, and every decimal
+      string with a non-zero first digit, is accepted and denotes its positional value *)
+Theorem c12_option_hex : forall l, l <> [] -> digit_str 16 l -> forall x, x = 120 \/ x = 88 ->
+  magnitude (48 :: x :: l) = Some (valb 16 l 0).
+Proof. exact magnitude_hex. Qed.
+Theorem c12_option_oct : forall l, l <> [] -> digit_str 8 l -> forall x, x = 111 \/ x = 79 ->
+  magnitude (48 :: x :: l) = Some (valb 8 l 0).
+Proof. exact magnitude_oct. Qed.
+Theorem c12_option_bin : forall l, l <> [] -> digit_str 2 l -> forall x, x = 98 \/ x = 66 ->
+  magnitude (48 :: x :: l) = Some (valb 2 l 0).
+Proof. exact magnitude_bin. Qed.
+Theorem c12_option_dec : forall c l d, digit_val c = Some d -> 0 < d < 10 -> digit_str 10 l ->
+  magnitude (c :: l) = Some (valb 10 l d).
+Proof. exact magnitude_dec. Qed.
 
 Example c12_nontrivial :
   let cfg := mkCfg (Some 7) None [4] [0x0301] in
